@@ -418,6 +418,50 @@ def rule_f_fragcache(chk, prog):
         chk.broke("no cached fragment block tag store found")
 
 
+def rule_g_truncate(chk, prog):
+    """after a duplicate run was found the output file is cut at the end of the last block that is *kept*: the argument of
+    truncate is computed from the block list at the updated element count (offset and size of entry used-1), not from a
+    position remembered before the bookkeeping was updated"""
+    from ..util import backward_slice
+    n = 0
+    for f in prog.functions():
+        if f.decl or f.unit.src != "lib/sqfs/src/block_writer.c":
+            continue
+        for c in f.calls():
+            if slot_call(c) != ("struct.sqfs_file_t", "truncate"):
+                continue
+            n += 1
+            chk.analysed(f)
+            inst = "%s:truncate" % f.name
+            used_stores = [i for i in f.insts() if i.op == "store" and _fld(i.ops[1]) == "used"]
+            sl = backward_slice(c.ops[1], through_loads=True, phi_control=False)
+            used_loads = [x for x in sl if x.is_inst and x.op == "load" and _fld(x.ops[0]) == "used" and
+                          used_stores and all(f.inst_dominates(s_, x) or not f.reaches(x.bb, s_.bb) for s_ in used_stores) and
+                          any(f.inst_dominates(s_, x) or f.reaches(s_.bb, x.bb) for s_ in used_stores)]
+            offs = [x for x in sl if x.is_inst and x.op == "load" and _fld(x.ops[0]) == "offset"]
+            sizes = [x for x in sl if x.is_inst and x.op == "load" and _fld(x.ops[0]) == "hash"]
+            if used_loads and offs and sizes:
+                chk.ok("K13-truncate", inst, c, "the new end of the output is offset + size of the block list entry at the updated count")
+            elif not used_stores:
+                chk.note("K13-truncate %s: the function does not change the block count; not decided" % inst)
+                chk.ok("K13-truncate", inst, c, "no bookkeeping change next to this truncate")
+            else:
+                chk.violation("K13-truncate", inst, c, "the output file is truncated to a position that is not derived from the block list "
+                              "after its element count was updated: when the duplicate run overlaps the file's own first blocks, blocks "
+                              "that are still referenced are cut off (and overwritten by later data)")
+    if n == 0:
+        chk.broke("no truncate call found in block_writer.c")
+    return n
+
+
+def _fld(p):
+    p = strip_casts(p)
+    if p.is_inst and p.op == "getelementptr":
+        fl = p.field()
+        return fl[1] if fl else None
+    return None
+
+
 def run(chk):
     chk.explanation = (
         "Necessary structural conditions for 'equal checksum never shares storage', decided on LLVM IR of the "
@@ -436,6 +480,7 @@ def run(chk):
     rule_d_current_frag(chk, prog)
     rule_e_inflight(chk, prog)
     rule_f_fragcache(chk, prog)
+    rule_g_truncate(chk, prog)
     chk.floor("K9-fragcache", 1)
     chk.floor("K12-compare", 1)
     chk.floor("K13-compare", 2)
